@@ -348,3 +348,66 @@ def pred_c08(script, go, cls):
     if fin.get("panics"):
         note("panic", "panic in the client: %s" % fin["panics"][:2])
     return bad
+
+
+# ---------------------------------------------------------------- nested length / truncation corruptions of a first message
+# a parameter tree: (type, body) with body = bytes (leaf) or list of nodes
+def _leaf(t, b):
+    return (t, b)
+
+
+def ren_tree(stamp=128, leading=(), status=0, followers=()):
+    kids = [_leaf(stamp, struct.pack(">Q", 1))] + list(leading) + [_leaf(256, struct.pack(">H", status))] + list(followers)
+    return (246, kids)
+
+
+N_HOPPING = _leaf(247, struct.pack(">H", 1))
+N_ANTENNA = _leaf(255, struct.pack(">BH", 1, 1))
+N_CLOSE = _leaf(257, b"")
+
+
+def ser(node, path=(), target=None, decl=None, resize=False):
+    """bytes of a tree; the node at `target` gets the declared length `decl`; resize=True: its body is cut / zero-padded to
+    decl-4 bytes and every enclosing length is recomputed from the actual bytes (self-consistent); resize=False: only the
+    length field lies"""
+    t, body = node
+    if isinstance(body, bytes):
+        b = body
+    else:
+        b = b"".join(ser(k, path + (i,), target, decl, resize) for i, k in enumerate(body))
+    n = 4 + len(b)
+    if path == target:
+        if resize:
+            want = max(decl - 4, 0)
+            b = b[:want] + b"\0" * max(0, want - len(b))
+        n = decl
+    return struct.pack(">HH", t, n & 0xFFFF) + b
+
+
+def nodes_of(node, path=()):
+    yield path, node
+    if not isinstance(node[1], bytes):
+        for i, k in enumerate(node[1]):
+            yield from nodes_of(k, path + (i,))
+
+
+def true_len(node):
+    return len(ser(node))
+
+
+def corruptions(tree):
+    """(label, payload) for ONE length/truncation corruption at every nesting level: every prefix of the message payload
+    (message length), and for every parameter (the ReaderEventNotificationData itself, each sub-parameter) its TLV length set to
+    every value 0 .. true+2, once with only the length field changed and once with body and enclosing lengths re-adjusted"""
+    good = ser(tree)
+    out = [("prefix-%d" % n, good[:n]) for n in range(len(good))]
+    out.append(("extra-byte", good + b"\0"))
+    for path, node in nodes_of(tree):
+        tl = true_len(node)
+        name = "p%d%s" % (node[0], "".join("_%d" % i for i in path))
+        for v in range(0, tl + 3):
+            if v == tl:
+                continue
+            out.append(("%s-len%d-of-%d-lenonly" % (name, v, tl), ser(tree, (), path, v, False)))
+            out.append(("%s-len%d-of-%d-resized" % (name, v, tl), ser(tree, (), path, v, True)))
+    return out
